@@ -822,8 +822,7 @@ func checkEvictedAccountsAreWiped(c *Ctx, rule string) {
 				_, f, _, okf := fieldOf(stripConv(z.Call.Args[0]))
 				return okf && f == "acctKeyPriv"
 			}
-			q := &PathQuery{Fn: fn, Barrier: zeroes}
-			q.EdgeBarrier = func(from *ssa.BasicBlock, si int) bool {
+			noKeyEdge := func(from *ssa.BasicBlock, si int) bool {
 				ef := edgeFactOf(from, si)
 				if ef == nil {
 					return false
@@ -841,6 +840,29 @@ func checkEvictedAccountsAreWiped(c *Ctx, rule string) {
 				}
 				return false
 			}
+			// the wipe may sit in a method of the account object: a callee that zeroes the key on every path on which
+			// there is one
+			wipers := map[*ssa.Function]bool{}
+			for _, g := range p.FuncsIn("waddrmgr") {
+				if g.Parent() != nil || len(g.Blocks) == 0 || len(callsNamed(g, "Zero")) == 0 {
+					continue
+				}
+				qg := &PathQuery{Fn: g, Barrier: zeroes, EdgeBarrier: noKeyEdge}
+				qg.Target = func(ins ssa.Instruction, _ *ssa.BasicBlock) bool { _, isRet := ins.(*ssa.Return); return isRet }
+				if len(qg.From(nil)) == 0 {
+					wipers[g] = true
+				}
+			}
+			q := &PathQuery{Fn: fn, Barrier: func(ins ssa.Instruction) bool {
+				if zeroes(ins) {
+					return true
+				}
+				if cc, ok := ins.(*ssa.Call); ok && wipers[cc.Call.StaticCallee()] {
+					return true
+				}
+				return false
+			}}
+			q.EdgeBarrier = noKeyEdge
 			q.Target = func(ins ssa.Instruction, _ *ssa.BasicBlock) bool { return ins == ssa.Instruction(call) }
 			c.Check(rule, "evicted-account-wiped-first:"+fnName(fn), call.Pos(), len(q.From(nil)) == 0,
 				fnName(fn)+" removes an account from the scoped manager's cache without wiping its private account key: evicted while unlocked, the object keeps the clear-text key and Lock() no longer reaches it")
